@@ -154,6 +154,12 @@ Judge(s, obs) ==
                 expected |-> ToString(et), observed |-> ToString(ot)] }
         ELSE {})
        \cup
+       (IF \E i, j \in 1..Len(on) : i < j /\ on[i] = on[j]
+        THEN { [property |-> "C07", clause |-> "Names",
+                sig |-> "names:duplicate:" \o s.style \o ":" \o (IF s.named THEN "named" ELSE "unnamed") \o ":" \o ToString(s.ndoc) \o "of" \o ToString(Len(en)),
+                expected |-> "pairwise distinct result names", observed |-> ToString(on)] }
+        ELSE {})
+       \cup
        (IF Len(on) = Len(en) /\ \E i \in 1..Len(en) : en[i] # "*" /\ en[i] # on[i]
         THEN { [property |-> "C07", clause |-> "Names",
                 sig |-> "names:" \o s.style \o ":" \o (IF s.named THEN "named" ELSE "unnamed") \o ":" \o ToString(s.ndoc) \o "of" \o ToString(Len(en)),
